@@ -254,6 +254,11 @@ def threshold_variants(spec, t, cfg):
 
     out = []
     d = cfg.detector
+    # thresholds no event reaches / every event reaches (the geometry-only integral does not depend on them)
+    if d.optical.enable:
+        out += [("optical", {"detector": {"optical": {"photo_electron_threshold": thr}}}) for thr in (1e30, 1e-30)]  # (0 itself divides by zero in the effective-cone formula: not a threshold)
+    if d.radio.enable:
+        out += [("radio", {"detector": {"radio": {"snr_threshold": thr}}}) for thr in (1e30, 0.0)]
     if d.optical.enable and "numPEs" in t.colnames:
         pes = np.asarray(t["numPEs"], dtype=float)
         cand = pes[(pes > 1.0) & (np.abs(pes - np.round(pes)) > 1e-6)]
